@@ -6,6 +6,7 @@ from checks import common
 
 sys.path.insert(0, os.path.join(common.VERIF, "tools"))
 import extract_fields  # noqa: E402
+from checks import api_cov
 
 LEAN_TARGETS = ["QmcProps.C13", "drv_c13"]
 BINS = ["c13"]
@@ -81,4 +82,5 @@ def main(ck):
         cases = ck.harness("c13", ["all"])
         ck.correspond("twin-clone-pool", "drv_c13", cases, max_samples=8)
     ck.notes.append("one-replica container: parallel_tempering_step draws one container-RNG word, tempering_step none (returns equal) — modelled (one_replica_differs) and measured (`draws 1` case); not a violation of the statement")
+    api_cov.run(ck, "c13")   # otherwise unexercised public API, model-free oracles of this property
     return ck.finish(RULE)
